@@ -52,7 +52,16 @@ def witness_cases():
                                     {"op": "race", "ds": "a", "ents": [sc.with_id("e1", B)], "second": [sc.with_id("e1", C)],
                                      "pause_at": "lock.wait", "reader": "rx", "limit": 0}] + race_fin},
     ]
-    return races + [
+    many = [sc.with_id("e%d" % i, {"props": {"p1": i % 3}, "refs": {}}) for i in list(range(1, 24)) + [5, 5, 12]]
+    http = {"datasets": ["a"], "ops": [
+        # the same feed through the real HTTP handlers: POST cut into batches of 10, GET changes forward / latest-only / reverse
+        {"op": "hbatch", "ds": "a", "ents": many},
+        {"op": "hchanges", "ds": "a", "reader": "h1", "limit": 4}, {"op": "hchanges", "ds": "a", "reader": "h1", "limit": 0},
+        {"op": "hbatch", "ds": "a", "ents": many[3:14]},
+        {"op": "hchanges", "ds": "a", "reader": "h1", "limit": 3}, {"op": "hchanges", "ds": "a", "reader": "h2", "limit": 7, "latest": True},
+        {"op": "hchanges", "ds": "a", "reader": "hr", "reverse": True, "limit": 6}, {"op": "hchanges", "ds": "a", "reader": "hr", "reverse": True, "limit": 50},
+        {"op": "hchanges", "ds": "a", "since": 40, "limit": 2}] + fin}
+    return races + [http] + [
         # F02a: identical element repeated inside one batch (new id)
         {"datasets": ["a"], "ops": [{"op": "batch", "ds": "a", "ents": [sc.with_id("e1", A), sc.with_id("e1", A)]}] + fin},
         # F02a: existing id
@@ -78,7 +87,13 @@ def gen_case(rng, nw, rich=True):
     readers = [("r1", rng.choice([1, 2, 3]), False), ("r2", rng.choice([1, 2, 0]), rng.chance(1, 2))]
     memo = {}
     for w in writes:
+        if w["op"] == "batch" and rng.chance(1, 5):
+            w = {"op": "hbatch", "ds": w["ds"], "ents": sc.no_null(w["ents"] + sc.gen_batch(rng, pool, memo, w["ds"], rich) * rng.choice([1, 4]))}
         ops.append(w)
+        if rng.chance(1, 5):
+            d = sc.DS_NAMES[rng.below(nds)]
+            ops.append({"op": "hchanges", "ds": d, "reader": "hx", "limit": rng.choice([1, 2, 0]), "latest": rng.chance(1, 3)})
+            ops.append({"op": "hchanges", "ds": d, "reader": "hy", "reverse": True, "limit": rng.choice([1, 2, 0])})
         if rng.chance(1, 6):
             ops.append(sc.gen_race(rng, pool, memo, sc.DS_NAMES[rng.below(nds)], "rx", rich))
         for name, lim, latest in readers:
